@@ -612,21 +612,24 @@ def _inputs(phase, d, tier):
 
     extra = notable_strings() + sample_strings(d)
     out = []
+    assert p["str_core"] >= max(p["str_all"], p["str_lite"], p["str_min"]) and p["com_core"] >= p["com_full"] >= p["com_each"]
     if phase == "str":
+        core_set = set(core)
         for ln in range(0, max(p["str_all"], p["str_lite"], p["str_min"]) + 1):
             mode = "all" if ln <= p["str_all"] else "lite" if ln <= p["str_lite"] else "min"
-            out += [(v, mode) for v in product_strings(alpha(ln), ln, ln)]
-        for ln in range(p["str_all"] + 1, p["str_core"] + 1):
+            upgraded = p["str_all"] < ln <= p["str_core"]  # strings over the core alphabet get every variant
+            out += [(v, "all" if upgraded and core_set.issuperset(v) else mode) for v in product_strings(alpha(ln), ln, ln)]
+        for ln in range(max(p["str_all"], p["str_lite"], p["str_min"]) + 1, p["str_core"] + 1):
             out += [(v, "all") for v in product_strings(core, ln, ln)]
         out += [(v, "all") for v in extra]
     elif phase == "com":
+        ccore_set = set(ccore)
         for ln in range(0, max(p["com_each"], p["com_full"]) + 1):
             mode = "each" if ln <= p["com_each"] else "all-plain"
-            out += [(v, mode) for v in product_strings(alpha(ln), ln, ln)]
-        for ln in range(p["com_each"] + 1, p["com_core"] + 1):
-            # ccore is a subset of full: lengths <= com_full were evaluated above without pretty
-            mode = "all-pretty" if ln <= p["com_full"] else "all-both"
-            out += [(v, mode) for v in product_strings(ccore, ln, ln)]
+            upgraded = p["com_each"] < ln <= p["com_core"]  # strings over the comment alphabet also get pretty=True
+            out += [(v, "all-both" if upgraded and ccore_set.issuperset(v) else mode) for v in product_strings(alpha(ln), ln, ln)]
+        for ln in range(max(p["com_each"], p["com_full"]) + 1, p["com_core"] + 1):
+            out += [(v, "all-both") for v in product_strings(ccore, ln, ln)]
         out += [(v, "each") for v in extra]
     elif phase == "bld":
         for ln in range(0, p["bld_full"] + 1):
@@ -782,8 +785,6 @@ def _do_comments(acc, d, v, mode):
         positions, pretties = COMMENT_POSITIONS, (False, True)
     elif mode == "all-plain":
         positions, pretties = ("all",), (False,)
-    elif mode == "all-pretty":
-        positions, pretties = ("all",), (True,)
     elif mode == "all-both":
         positions, pretties = ("all",), (False, True)
     else:
